@@ -26,6 +26,7 @@ From V Require Import Model.Types Model.Crypto Model.Sym Model.KeyId Model.Gkdi 
 From V Require Import Spec.GkdiSpec Spec.KekSpec.
 From V Require Import gen.K_e2e.
 From V Require Import Proofs.BlobPkcs7 Proofs.BlobMain Proofs.C01Lib Proofs.C01.
+From V Require Import Prelude.PyAst Prelude.PyWorld gen.F_e2e Model.CryptoWrap Flow.World_e2e Proofs.Flow_e2e_dec Proofs.Flow_e2e_enc.
 
 Theorem C01_roundtrip_offline : forall (c : Crypto) (h : hash) (rk : root_key) (rkid : bytes) (s : sid) (sid : pystr) (time_ns l0 l1 l2 : Z),
   rk_hash rk = Ok h -> rk_kdf_alg rk = STR_KDF_ALG -> len rkid = 16 ->
@@ -124,7 +125,31 @@ Print Assumptions C01_sym_not_ideal.
 (* ---- the hypotheses are satisfiable (each instance is obtained by applying the two theorems above to values for
    which every hypothesis is checked): empty plaintext; 70 000 bytes with a SID of 15 sub-authorities (values 0 and
    2^32 - 1) one tick before an L0 boundary; first tick of the next L0 interval. In each: protect succeeds, the blob and
-   its trailing-ciphertext re-layout decrypt to the plaintext with the cache left by protect and with the original cache *)
+   its trailing-ciphertext re-layout decrypt to the plaintext with the cache left by protect and with the original cache *)(* ---- tie to the source: the whole bodies of _crypto.cek_decrypt, _crypto.content_decrypt and _client._decrypt_blob,
+   regenerated as syntax on every run (gen/F_e2e.v) and run in the world Flow/World_e2e.v, ARE the model functions the
+   theorems above are about ---- *)
+Theorem C01_flow_cek_decrypt : forall c fuel a p kek v,
+  run (W c) fuel k_flow_cek_decrypt [VO (OOid a); vopt_bytes p; VB kek; VB v] = (let* b := cek_decrypt c a p kek v in Ok (VB b)).
+Proof. exact flow_cek_decrypt. Qed.
+Print Assumptions C01_flow_cek_decrypt.
+Theorem C01_flow_content_decrypt : forall c fuel a p cek v,
+  run (W c) fuel k_flow_content_decrypt [VO (OOid a); vopt_bytes p; VB cek; VB v] = (let* b := content_decrypt c a p cek v in Ok (VB b)).
+Proof. exact flow_content_decrypt. Qed.
+Print Assumptions C01_flow_content_decrypt.
+Theorem C01_flow_decrypt_blob : forall c fuel b key,
+  run (W c) fuel k_flow_decrypt_blob [VO (OBlob b); VO (OEnv key)] = (let* x := decrypt_blob c b key in Ok (VB x)).
+Proof. exact flow_decrypt_blob. Qed.
+Print Assumptions C01_flow_decrypt_blob.
+Theorem C01_flow_cek_encrypt : forall c fuel a p kek v,
+  run (W c) fuel k_flow_cek_encrypt [VO (OOid a); vopt_bytes p; VB kek; VB v] = (let* b := cek_encrypt c a p kek v in Ok (VB b)).
+Proof. exact flow_cek_encrypt. Qed.
+Print Assumptions C01_flow_cek_encrypt.
+Theorem C01_flow_content_encrypt : forall c fuel a p cek v,
+  run (W c) fuel k_flow_content_encrypt [VO (OOid a); vopt_bytes p; VB cek; VB v] = (let* b := content_encrypt c a p cek v in Ok (VB b)).
+Proof. exact flow_content_encrypt. Qed.
+Print Assumptions C01_flow_content_encrypt.
+
+
 Example C01_example_empty : example_statement ex_sid ex_time [].
 Proof. exact example_empty. Qed.
 Example C01_example_large : example_statement ex_sid15 ex_time_l0 (repeat 9 70000).
